@@ -86,7 +86,13 @@ func (a Alphabet) allowed() []byte {
 }
 
 // HostileTokens are multi-byte sequences with a special meaning to some layer.
-var HostileTokens = [][]byte{[]byte("\xef\xbb\xbf"), []byte("%"), []byte("%s"), []byte("%d%!"), []byte("%%"), []byte("\x1f\x8b"), []byte("\xff\xfe"), []byte("\\n"), []byte("\u0085"), []byte("\u00a0"), []byte("\v"), []byte("\f")}
+var HostileTokens = [][]byte{
+	// words that some format, tool or layer gives a meaning of its own: header keywords of UCSC
+	// custom tracks, missing-value spellings, percent escapes, number prefixes, comment openers
+	[]byte("track"), []byte("track "), []byte("browser"), []byte("browser "), []byte("NA"), []byte("nan"), []byte("inf"), []byte("null"),
+	[]byte("*"), []byte("."), []byte("="), []byte("//"), []byte("%09"), []byte("%0A"), []byte("%25"), []byte("%2F"), []byte("0x1"), []byte("1e5"),
+	[]byte("chr"), []byte("true"), []byte("--"), []byte("\\t"), []byte("&"),
+	[]byte("\xef\xbb\xbf"), []byte("%"), []byte("%s"), []byte("%d%!"), []byte("%%"), []byte("\x1f\x8b"), []byte("\xff\xfe"), []byte("\\n"), []byte("\u0085"), []byte("\u00a0"), []byte("\v"), []byte("\f")}
 
 // Byte draws one byte of the alphabet (mixture: hostile, printable, uniform).
 func (a Alphabet) Byte() *rapid.Generator[byte] {
@@ -127,7 +133,7 @@ func (a Alphabet) Bytes(lo, hi int) *rapid.Generator[B] {
 		}
 		// Multi-byte tokens that some code treats specially (byte order mark, fmt verbs,
 		// gzip magic number), at the start or inside the field.
-		if hi >= 4 && rapid.IntRange(0, 39).Draw(t, "token") == 17 {
+		if hi >= 4 && rapid.IntRange(0, 24).Draw(t, "token") == 17 {
 			tok := rapid.SampledFrom(HostileTokens).Draw(t, "tok")
 			ok := true
 			for _, c := range tok {
